@@ -26,10 +26,9 @@ From Coq Require Import List Arith Bool.
 From PV Require Import Common.Cases C09.Spec C09.Gen.
 Import ListNotations.
 
-Inductive lkind := LNone | LLive | LDead.          (* no listener set | alive | weakref expired *)
 Record pcfg := { dmaplike : bool; ntasks : nat }.
 (* mainp: index of the protocol whose push updater is the main instance (highest priority) *)
-Record cfg := { protos : list pcfg; lst : lkind; mainp : nat }.
+Record cfg := { protos : list pcfg; mainp : nat }.
 
 Inductive qitem := QUpd (err : bool) (i : nat) | QNoop.   (* scheduled call-backs *)
 
@@ -46,21 +45,25 @@ Inductive res := RNone | ROk | RBlocked | RTasks (l : list task) | RFuel.
 Record st := { blocked : bool; pending : option (list task); calls : nat;
                fwd : bool;                 (* FacadePushUpdater._forward_updates *)
                lis : bool;                 (* do the protocols' updaters have the facade as listener? *)
-               queue : list qitem }.       (* loop.call_soon FIFO *)
+               queue : list qitem;         (* loop.call_soon FIFO *)
+               lstn : lkind }.             (* StateProducer.__listener of the device object *)
 
 Definition init : st :=
-  {| blocked := false; pending := None; calls := 0; fwd := false; lis := false; queue := [] |}.
+  {| blocked := false; pending := None; calls := 0; fwd := false; lis := false; queue := [];
+     lstn := LNone |}.
 
 Definition set_blocked (s : st) (b : bool) : st :=
-  {| blocked := b; pending := pending s; calls := calls s; fwd := fwd s; lis := lis s; queue := queue s |}.
+  {| blocked := b; pending := pending s; calls := calls s; fwd := fwd s; lis := lis s; queue := queue s; lstn := lstn s |}.
 Definition set_pending (s : st) (p : option (list task)) : st :=
-  {| blocked := blocked s; pending := p; calls := calls s; fwd := fwd s; lis := lis s; queue := queue s |}.
+  {| blocked := blocked s; pending := p; calls := calls s; fwd := fwd s; lis := lis s; queue := queue s; lstn := lstn s |}.
 Definition set_calls (s : st) (n : nat) : st :=
-  {| blocked := blocked s; pending := pending s; calls := n; fwd := fwd s; lis := lis s; queue := queue s |}.
+  {| blocked := blocked s; pending := pending s; calls := n; fwd := fwd s; lis := lis s; queue := queue s; lstn := lstn s |}.
 Definition set_push (s : st) (b : bool) : st :=      (* start: listener set + forwarding on; stop: both off *)
-  {| blocked := blocked s; pending := pending s; calls := calls s; fwd := b; lis := b; queue := queue s |}.
+  {| blocked := blocked s; pending := pending s; calls := calls s; fwd := b; lis := b; queue := queue s; lstn := lstn s |}.
+Definition set_lstn (s : st) (l : lkind) : st :=
+  {| blocked := blocked s; pending := pending s; calls := calls s; fwd := fwd s; lis := lis s; queue := queue s; lstn := l |}.
 Definition set_queue (s : st) (q : list qitem) : st :=
-  {| blocked := blocked s; pending := pending s; calls := calls s; fwd := fwd s; lis := lis s; queue := q |}.
+  {| blocked := blocked s; pending := pending s; calls := calls s; fwd := fwd s; lis := lis s; queue := q; lstn := lstn s |}.
 
 Definition max_calls : nat := 1.                    (* FacadeAppleTV: super().__init__(max_calls=1) *)
 
@@ -113,7 +116,7 @@ Fixpoint close_f (fuel : nat) (c : cfg) (s : st) : st * list obs * res :=
         let s0 := set_push s false in                  (* FacadePushUpdater.stop() *)
         let s1 := set_pending s0 (Some [TSess]) in     (* set(); add(create_task(session.close())) *)
         let closef := fun x => let '(a, b, _) := close_f f c x in (a, b) in
-        let '(s2, o2) := close_protos closef (lst c) 0 (protos c) s1 in
+        let '(s2, o2) := close_protos closef (lstn s1) 0 (protos c) s1 in
         let s3 := set_blocked s2 true in               (* _block_everything() *)
         (s3, map UpdStop (seq 0 n) ++ SessClose :: o2,
          RTasks (match pending s3 with Some t => t | None => [] end))
@@ -123,7 +126,7 @@ Fixpoint close_f (fuel : nat) (c : cfg) (s : st) : st * list obs * res :=
 Definition close (c : cfg) (s : st) : st * list obs * res := close_f 2 c s.
 
 Definition report (c : cfg) (s : st) (k : notif) : st * list obs :=
-  report_with (fun x => let '(a, b, _) := close c x in (a, b)) (lst c) s k.
+  report_with (fun x => let '(a, b, _) := close c x in (a, b)) (lstn s) s k.
 
 (* one scheduled call-back runs: FacadePushUpdater.playstatus_update / playstatus_error *)
 Definition deliver_q (c : cfg) (s : st) (q : qitem) : list obs :=
@@ -155,6 +158,8 @@ Definition step (c : cfg) (s : st) (e : ev) : st * list obs * res :=
   | PostPlay i => (schedule s false i, [], RNone)
   | PostErr i => (schedule s true i, [], RNone)
   | RunLoop => (set_queue s [], flat_map (deliver_q c s) (queue s), RNone)
+  | SetListener l => (set_lstn s l, [], RNone)      (* the setter stores a weak reference, nothing else:
+                                                       calls_made keeps counting over all listeners *)
   end.
 
 (* per-event outputs *)
